@@ -53,13 +53,56 @@ def subset (xs ys : List String) : Bool := xs.all (· ∈ ys)
 
 def inter (xs ys : List String) : List String := xs.filter (· ∈ ys)
 
-/-- analysis state: declared names, definitely initialised names -/
+/-- analysis state: declared names `D`, definitely initialised names `A ⊆ D`, flags known to hold
+`true` (`T`), and guard facts `G`: `(f, x) ∈ G` means "if `f` holds a false value then `x` is
+initialised". The facts make the analysis path-sensitive enough for the `First()` idiom
+(`bool is_first (true); for … { if (is_first) { is_first = false; x = v; } } if (is_first) throw …;`):
+after the emptiness check has fallen through, `x` is known to be initialised. -/
 structure DA where
   D : List String
   A : List String
+  T : List String := []
+  G : List (String × String) := []
 deriving Repr, DecidableEq
 
 def okE (s : DA) (e : CExpr) : Bool := clean e && subset (vars e) s.A
+
+/-- the fact `p` is known to hold in analysis state `s` (listed, or trivially true) -/
+def DA.eff (s : DA) (p : String × String) : Bool :=
+  decide (p ∈ s.G) || decide (p.2 ∈ s.A) || decide (p.1 ∈ s.T)
+
+/-- `x` receives a (new) defined value -/
+def DA.assign (s : DA) (x : String) : DA :=
+  { D := s.D, A := x :: s.A, T := s.T.filter (· != x),
+    G := s.G.filter fun p => p.1 != x || decide (p.2 ∈ x :: s.A) }
+
+/-- forget everything about a name that is being declared -/
+def DA.fresh (s : DA) (n : String) : DA :=
+  { s with T := s.T.filter (· != n), G := s.G.filter fun p => p.1 != n && p.2 != n }
+
+def inD (D0 : List String) (p : String × String) : Bool := decide (p.1 ∈ D0) && decide (p.2 ∈ D0)
+
+/-- leave a scope: only the names of `D0` remain -/
+def DA.restrict (s : DA) (D0 : List String) : DA :=
+  { D := D0, A := s.A.filter (· ∈ D0), T := s.T.filter (· ∈ D0), G := s.G.filter (inD D0) }
+
+/-- what holds after either branch -/
+def DA.join (D0 : List String) (st se : DA) : DA :=
+  { D := D0, A := (inter st.A se.A).filter (· ∈ D0), T := (inter st.T se.T).filter (· ∈ D0),
+    G := ((st.G.filter se.eff) ++ (se.G.filter st.eff)).filter (inD D0) }
+
+/-- the condition `c` evaluated to false: the targets of the facts guarded by `c` are initialised -/
+def DA.knowFalse (s : DA) : CExpr → DA
+  | .var f => { s with A := (((s.G.filter fun p => p.1 == f).map (·.2)).filter (· ∈ s.D)) ++ s.A }
+  | _ => s
+
+def isTrueLit : CExpr → Bool
+  | .bool true => true
+  | _ => false
+
+def isThrow : List Stmt → Bool
+  | [.throw _] => true
+  | _ => false
 
 structure DACtx where
   cols : List String       -- branch variables read by `fill`
@@ -68,40 +111,61 @@ structure DACtx where
 def retrOk (C : DACtx) (s : DA) (how : String) (bank : CExpr) (token : String) : Bool :=
   if how = "token" then decide (token ∈ C.tokens) else okE s bank
 
+/-- state at a loop head: the loop variable is declared and initialised, no flag is known true
+(the body may have run), the candidate facts `G` are assumed -/
+def loopHead (s : DA) (x : String) (G : List (String × String)) : DA :=
+  { D := x :: s.D, A := x :: s.A, T := [], G := G }
+
+/-- candidate loop invariant: the facts known before the loop (explicitly, or through a flag that
+is still `true`), about names of the enclosing scope -/
+def loopCand (s : DA) : List (String × String) :=
+  (s.G ++ s.T.flatMap fun f => s.D.map fun y => (f, y)).filter (inD s.D)
+
 mutual
   def da (C : DACtx) : Stmt → DA → Option DA
     | .block body, s =>
       -- names declared inside go out of scope at the closing brace
       match das C body s with
-      | some s' => some { D := s.D, A := s'.A.filter (· ∈ s.D) }
+      | some s' => some (s'.restrict s.D)
       | none => none
     | .loop x coll body, s =>
       if okE s coll && !(x ∈ s.D) then
-        match das C body { D := x :: s.D, A := x :: s.A } with
-        | some _ => some s
+        match das C body (loopHead s x (loopCand s)) with
         | none => none
+        | some sb1 =>
+          -- keep the facts the body preserves, and check that they are an invariant
+          let inv := (loopCand s).filter sb1.eff
+          match das C body (loopHead s x inv) with
+          | none => none
+          | some sb2 => if inv.all sb2.eff then some { s with T := [], G := inv } else none
       else none
     | .ite c thn els, s =>
       if okE s c then
         match das C thn s with
         | none => none
         | some st =>
-          match das C els s with
+          match das C els (s.knowFalse c) with
           | none => none
-          | some se => some { D := s.D, A := (inter st.A se.A).filter (· ∈ s.D) }
+          | some se => if isThrow thn then some (se.restrict s.D) else some (DA.join s.D st se)
       else none
     | .decl ty n init, s =>
       if n ∈ s.D then none
       else match init with
-        | some e => if okE s e then some { D := n :: s.D, A := n :: s.A } else none
-        | none => if isVecType ty then some { D := n :: s.D, A := n :: s.A } else some { D := n :: s.D, A := s.A }
-    | .set x e, s => if x ∈ s.D && okE s e then some { s with A := x :: s.A } else none
-    | .push x e, s => if x ∈ s.A && okE s e then some s else none
-    | .clear x, s => if x ∈ s.A then some s else none
+        | some e =>
+          if okE s e then
+            some { D := n :: s.D, A := n :: s.A,
+                   T := if ty = "bool" ∧ isTrueLit e = true then n :: (s.fresh n).T else (s.fresh n).T, G := (s.fresh n).G }
+          else none
+        | none =>
+          if isVecType ty then some { D := n :: s.D, A := n :: s.A, T := (s.fresh n).T, G := (s.fresh n).G }
+          else some { D := n :: s.D, A := s.A, T := (s.fresh n).T, G := (s.fresh n).G }
+    | .set x e, s => if x ∈ s.D && okE s e then some (s.assign x) else none
+    | .push x e, s => if x ∈ s.A && okE s e then some (s.assign x) else none
+    | .clear x, s => if x ∈ s.A then some (s.assign x) else none
     | .fill _, s => if subset C.cols s.A then some s else none
     | .throw _, s => some s
     | .retrieve how _ v bank token, s =>
-      if v ∈ s.D && retrOk C s how bank token then some { s with A := v :: s.A } else none
+      if v ∈ s.D && retrOk C s how bank token then some (s.assign v) else none
     | .line _, _ => none
   def das (C : DACtx) : List Stmt → DA → Option DA
     | [], s => some s
